@@ -271,6 +271,9 @@ func (o *OracleC21) Judge(w *World, b *BlockCtx, p *ProbeResult) {
 	key := string(ic.Raw)
 	issuer := Acct(ic.Issuer).Addr
 	if p.Resp.Code != 0 {
+		if ic.GenesisUsed && ic.DueBlock >= uint64(p.Height) && m.ProofOK {
+			w.Probe("c21_genesis_used_check_rejected")
+		}
 		w.Probe("c21_rejected")
 		return
 	}
@@ -278,6 +281,8 @@ func (o *OracleC21) Judge(w *World, b *BlockCtx, p *ProbeResult) {
 	switch {
 	case o.redeemed[key] != 0:
 		bad = fmt.Sprintf("redeemed-twice (first at height %d)", o.redeemed[key])
+	case ic.GenesisUsed:
+		bad = "redeemed-twice (the genesis lists this check as used)"
 	case !ic.ChainOK:
 		bad = "foreign-chain-check"
 	case ic.DueBlock < uint64(p.Height):
@@ -747,6 +752,17 @@ func init() {
 			if len(sc.Blocks) > 40 && tier != "thorough" {
 				sc.Blocks = sc.Blocks[:40]
 			}
+			// half of the chains continue one on which some checks were already redeemed (genesis used_checks)
+			if r.Intn(2) == 0 {
+				st, _ := UnmarshalGenesis(sc.Genesis)
+				for i := 0; i < 2+r.Intn(4); i++ {
+					pc := PreCheck{Issuer: r.Intn(sc.Gen.NAcct), Pass: r.Intn(50), Coin: 0, Value: pip(float64(1 + r.Intn(50))).String(), Due: uint64(sc.InitialH) + uint64(20+r.Intn(2000)), Nonce: fmt.Sprintf("g%d", i)}
+					_, h := pc.Build(types.ChainID(chain))
+					st.UsedChecks = append(st.UsedChecks, types.UsedCheck(h))
+					sc.PreUsed = append(sc.PreUsed, pc)
+				}
+				sc.Genesis = MarshalGenesis(st)
+			}
 			return sc
 		},
 		Monitors: func(sc *Scenario) []Monitor { return []Monitor{&MonProbe{Oracles: []Prober{&OracleC21{}}}} },
@@ -759,7 +775,7 @@ func init() {
 			}
 			return out
 		},
-		ExpectProbes: []string{"c21_redeemed", "c21_rejected"},
+		ExpectProbes: []string{"c21_redeemed", "c21_rejected", "c21_genesis_used_check_rejected"},
 	})
 	register(&PropSpec{ID: "C27", Level: "exploration",
 		Rule: "counterfactual probe twins of accepted transactions of every type x payload/service-data length x gas price x gas coin under genesis and voted price tables whose fields all differ (base and custom price-table coin); oracle: tx.commission_price == gasPrice*(P(type)+bytes*P(byte)) with a type->field map written from the statement, base value and ticker burn, exact payer debit where nothing else touches the balance, conservation of the fee into validators' accrual + total slashed; distinct non-trivial case = distinct (tx kind, gas-coin class, price-coin class)",
